@@ -94,6 +94,8 @@ class Wire (α : Type) where
   parse : String → Option α
   render : α → String
 
+instance : Transc Float := ⟨Float.sqrt, Float.exp⟩
+
 instance : Wire Rat := ⟨parseRat, showRat⟩
 instance : Wire Float := ⟨parseFloatBits, showFloatBits⟩
 
@@ -307,6 +309,19 @@ def opHist (line : String) : Option String := do
         some (" # ".intercalate (runBase K (ratCfg mode eps) rho vt showVec calls))
       else if kind == "smap" then
         some (" # ".intercalate (runSMap K (ratCfg mode eps) rho showVec calls))
+      else none
+    | [kind, "sph", mode, eps, vt, rho, alpha, beta, rhat] =>
+      -- HypersphereART on IEEE doubles (bit patterns): same definitions, `Float` instance
+      let mode ← parseMT mode
+      let eps ← parseFloatBits eps
+      let vt ← parseVetoTab vt
+      let K := sphKernel (← parseFloatBits alpha) (← parseFloatBits beta) (← parseFloatBits rhat)
+      let calls ← callStrs.mapM (parseCall (parseMat (α := Float)))
+      let rho ← parseFloatBits rho
+      if kind == "base" then
+        some (" # ".intercalate (runBase K (floatCfg mode eps) rho vt showVec calls))
+      else if kind == "smap" then
+        some (" # ".intercalate (runSMap K (floatCfg mode eps) rho showVec calls))
       else none
     | [kind, "art1", mode, eps, vt, rho, L, dim] =>
       let mode ← parseMT mode
